@@ -17,7 +17,8 @@ Inc == <<Text("<"), PrintS(NameE("x")), Text(">")>>
 NBad == 21
 Bad(v) == <<[k |-> "syntaxerror", v |-> v]>>
 BadName(v) == "bad" \o ToString(v)
-Others == ("lib" :> Lib) @@ ("base" :> Base) @@ ("mid" :> Mid) @@ ("inc" :> Inc) @@ ("bad" :> Bad(0))
+(* "missing/inner" makes the name "missing" a directory under the filesystem loader: a name that opens and is not a template *)
+Others == ("lib" :> Lib) @@ ("base" :> Base) @@ ("mid" :> Mid) @@ ("inc" :> Inc) @@ ("bad" :> Bad(0)) @@ ("missing/inner" :> <<Text("in")>>)
           @@ [nm \in {BadName(v) : v \in 0..(NBad - 1)} |-> Bad(CHOOSE v \in 0..(NBad - 1) : BadName(v) = nm)]
 
 Bases == <<
